@@ -402,6 +402,22 @@ fn voiceset_part(rep: &Report) {
     let mut v = a.clone();
     v.metadata.num_states += 1;
     diffs.push(("states", v));
+    // the remaining entries of the global section: version strings, label format, GV-off contexts, stream names
+    let mut v = a.clone();
+    v.metadata.hts_voice_version.push_str(".1");
+    diffs.push(("HTS_VOICE_VERSION", v));
+    let mut v = a.clone();
+    v.metadata.fullcontext_format.push_str("_x");
+    diffs.push(("FULLCONTEXT_FORMAT", v));
+    let mut v = a.clone();
+    v.metadata.fullcontext_version.push_str(".1");
+    diffs.push(("FULLCONTEXT_VERSION", v));
+    let mut v = a.clone();
+    v.metadata.gv_off_context = jbonsai::model::voice::question::Question::parse(&["*-sil+*"]).expect("question");
+    diffs.push(("GV_OFF_CONTEXT", v));
+    let mut v = a.clone();
+    v.metadata.stream_type[0].push('2');
+    diffs.push(("STREAM_TYPE name", v));
     let mut v = a.clone();
     v.metadata.num_streams -= 1;
     v.stream_models.pop();
@@ -528,7 +544,7 @@ pub fn run(tier: Tier) -> i32 {
     let rep: &'static Report = Box::leak(Box::new(Report::new("C19", tier, "model_checking")));
     let monitor = Arc::new(HangMonitor::start(rep, "C19 weight history"));
     let depth: u8 = tier.pick(2, 3);
-    rep.set_rule("HIST (stateright BFS): all histories over {set_duration/set_parameter(i)/set_gv(i) with weight vectors from {5 valid incl. vertices and (1.5,-.5); invalid: wrong lengths, sum off by 1e-6 and 0.1, NaN, (inf,-inf), large magnitudes, empty}; load_model of the condition in use with 1, 2 or 3 voices (equal weights of the new count must then be in force)} to the depth bound on real engines starting with 2 and 3 voices, getters and synthesis (vs a fresh engine given only the reference's effective weights) after every call; states merged by (depth, Debug rendering of the real InterporationWeight); plus one fixed history per quantity on sets of 5..17 voices (thorough 65) with weight vectors whose validity is decided by their last entries; plus SCOPE: VoiceSet::new on [], and on every list of 2-4 voices where one voice (in every position) or an identical pair differs in exactly one metadata field (in every position), in two fields of one stream (incl. vector length x windows with the same product, with and without GV) or in none; non-trivial = every state after at least one update");
+    rep.set_rule("HIST (stateright BFS): all histories over {set_duration/set_parameter(i)/set_gv(i) with weight vectors from {5 valid incl. vertices and (1.5,-.5); invalid: wrong lengths, sum off by 1e-6 and 0.1, NaN, (inf,-inf), large magnitudes, empty}; load_model of the condition in use with 1, 2 or 3 voices (equal weights of the new count must then be in force)} to the depth bound on real engines starting with 2 and 3 voices, getters and synthesis (vs a fresh engine given only the reference's effective weights) after every call; states merged by (depth, Debug rendering of the real InterporationWeight); plus one fixed history per quantity on sets of 5..17 voices (thorough 65) with weight vectors whose validity is decided by their last entries; plus SCOPE: VoiceSet::new on [], and on every list of 2-4 voices where one voice (in every position) or an identical pair differs in exactly one metadata field (sampling rate, frame period, states, streams, version strings, label format, GV-off contexts, stream name, vector length, windows count, MSD flag, GV flag, option; in every position), in two fields of one stream (incl. vector length x windows with the same product, with and without GV) or in none; non-trivial = every state after at least one update");
     rep.assume("weight sums strictly between 1e-15 and 1e-6 away from 1 are unspecified by the property and not in the alphabet");
     voiceset_part(rep);
     many_voices_part(rep, tier);
